@@ -239,7 +239,9 @@ func c12(c *core.Ctx) {
 			return false
 		}
 		for _, lc := range lockCalls {
-			reach, tr := ssax.Reach(recv, lc, func(in ssa.Instruction) bool { _, ok := in.(*ssa.Return); return ok }, isDelete, func(a, b *ssa.BasicBlock) bool { return b.Dominates(a) /* back edge: the intermediate-chunk path loops */ })
+			reach, tr := ssax.Reach(recv, lc, func(in ssa.Instruction) bool { _, ok := in.(*ssa.Return); return ok }, isDelete, func(a, b *ssa.BasicBlock) bool {
+				return b.Dominates(a) /* back edge: the intermediate-chunk path loops */
+			})
 			c.Ob("C12.release", fname(recv)+"·terminal paths delete the entry", pos(c, lc), !reach, "a terminal path keeps the partial message buffered: "+boolStr(reach), trace(c, tr)...)
 		}
 	}
